@@ -3,6 +3,14 @@
 COMMON_TB = ['spec functions in /verif/specs as a rendering of the property text']
 
 PROPS = {
+    'C01': {
+        'modules': ['contracts.c01'],
+        'level': 'proof',
+        'trusted_base': COMMON_TB,
+        'assumptions': [],
+        'level_text': 'wip', 'level_note': 'wip',
+        'explanation': 'wire format contracts',
+    },
     'C17': {
         'modules': ['contracts.c17'],
         'level': 'proof',
